@@ -52,17 +52,46 @@ func (e *Env) RUniqueNames() {
 	pos := e.Prog.Pos(fd.Pos())
 	conflict, conflictObj := funcLitNamed(info, fd, "conflict")
 	findAlias, findObj := funcLitNamed(info, fd, "findAlias")
-	if conflict == nil || findAlias == nil {
-		e.Run.Undecided("R-UNIQ", "conflict/findAlias closures", pos, "name selection no longer uses the conflict/findAlias closures")
+	if findAlias == nil {
+		e.Run.Undecided("R-UNIQ", "conflict/findAlias closures", pos, "name selection no longer uses the findAlias closure")
 		return
 	}
+	// the conflict test written inline: `for SET[candidate] { … }` in findAlias
+	var inlineSet types.Object
+	var inlineCand types.Object
+	if conflict == nil {
+		ast.Inspect(findAlias.Body, func(n ast.Node) bool {
+			fs, ok := n.(*ast.ForStmt)
+			if !ok || fs.Init != nil || fs.Post != nil || fs.Cond == nil {
+				return true
+			}
+			if ix, ok := ast.Unparen(fs.Cond).(*ast.IndexExpr); ok {
+				sid, ok1 := ix.X.(*ast.Ident)
+				kid, ok2 := ix.Index.(*ast.Ident)
+				if ok1 && ok2 {
+					if _, isMap := info.TypeOf(sid).Underlying().(*types.Map); isMap {
+						inlineSet, inlineCand = c.ObjOf(sid), c.ObjOf(kid)
+					}
+				}
+			}
+			return true
+		})
+		if inlineSet == nil {
+			e.Run.Undecided("R-UNIQ", "conflict/findAlias closures", pos, "no conflict closure and no `for set[candidate]` loop in findAlias")
+			return
+		}
+	}
 	var nameParam types.Object
-	if len(conflict.Type.Params.List) == 1 && len(conflict.Type.Params.List[0].Names) == 1 {
+	if conflict != nil && len(conflict.Type.Params.List) == 1 && len(conflict.Type.Params.List[0].Names) == 1 {
 		nameParam = info.Defs[conflict.Type.Params.List[0].Names[0]]
 	}
 	// what does conflict read?
 	kind, setExpr := "", ""
 	var setObj types.Object // for the keys(T) form
+	if conflict == nil {
+		kind, setExpr, setObj = "keys", inlineSet.Name(), inlineSet
+		conflict = &ast.FuncLit{Body: &ast.BlockStmt{}, Type: &ast.FuncType{Params: &ast.FieldList{}}}
+	}
 	if len(conflict.Body.List) == 2 {
 		if rs, ok := conflict.Body.List[0].(*ast.RangeStmt); ok {
 			if vid, ok := rs.Value.(*ast.Ident); ok && len(rs.Body.List) == 1 {
@@ -135,8 +164,15 @@ func (e *Env) RUniqueNames() {
 			return true
 		}
 		if call, ok := fs.Cond.(*ast.CallExpr); ok && len(call.Args) == 1 {
-			if fid, ok := call.Fun.(*ast.Ident); ok && c.ObjOf(fid) == conflictObj {
+			if fid, ok := call.Fun.(*ast.Ident); ok && conflictObj != nil && c.ObjOf(fid) == conflictObj {
 				if aid, ok := call.Args[0].(*ast.Ident); ok && c.ObjOf(aid) == chosen {
+					loopTests = true
+				}
+			}
+		}
+		if inlineSet != nil && inlineCand == chosen {
+			if ix, ok := ast.Unparen(fs.Cond).(*ast.IndexExpr); ok {
+				if sid, ok := ix.X.(*ast.Ident); ok && c.ObjOf(sid) == inlineSet {
 					loopTests = true
 				}
 			}
@@ -857,6 +893,17 @@ func (e *Env) RResolverClauses() {
 		scan := []ast.Node{fdI.Body}
 		ast.Inspect(fdI.Body, func(n ast.Node) bool {
 			if call, ok := n.(*ast.CallExpr); ok {
+				for _, a := range call.Args {
+					if se, ok := a.(*ast.SelectorExpr); ok {
+						if mf, ok := cG.Info.Uses[se.Sel].(*types.Func); ok && mf.Pkg() == pkgG.Types {
+							for _, d := range load.AllFuncDecls(pkgG) {
+								if cG.Info.Defs[d.Name] == types.Object(mf) && d.Body != nil {
+									scan = append(scan, d.Body)
+								}
+							}
+						}
+					}
+				}
 				if fn := cG.Callee(call); fn != nil && fn.Pkg() == pkgG.Types {
 					for _, d := range load.AllFuncDecls(pkgG) {
 						if cG.Info.Defs[d.Name] == types.Object(fn) && d.Body != nil && d != fdI {
@@ -1107,20 +1154,37 @@ func (e *Env) goastImports() {
 		e.Run.Violation("R-RESOLVER", "goast.imports exists", "", "missing")
 		return
 	}
-	e.checkReturnsZ("R-RESOLVER", c, fd, "goast.imports", "∅", []wantReturn{
-		{what: "a cached table is returned as it is", result: "r.files[file]", cond: "ok(r.files[file])"},
-		{what: "a recorded refusal is returned, not swallowed", result: "nil", err: "outer", cond: "!ok(r.files[file]) && outer != nil"},
-		{what: "otherwise the new table", result: "imports", cond: "!ok(r.files[file]) && outer == nil"},
-	}, "")
-	// the scan callback
+	returnsSpec := func(table, errL string) {
+		e.checkReturnsZ("R-RESOLVER", c, fd, "goast.imports", "∅", []wantReturn{
+			{what: "a cached table is returned as it is", result: "r.files[file]", cond: "ok(r.files[file])"},
+			{what: "a recorded refusal is returned, not swallowed", result: "nil", err: errL, cond: "!ok(r.files[file]) && " + errL + " != nil"},
+			{what: "otherwise the new table", result: table, cond: "!ok(r.files[file]) && " + errL + " == nil"},
+		}, "")
+	}
+	// the scan callback: a function literal, or a method value x.m (the state lives in x)
 	var lit *ast.FuncLit
+	rename := func(s string) string { return s } // receiver of the callback method → the value it is called on
 	ast.Inspect(fd.Body, func(n ast.Node) bool {
 		if call, ok := n.(*ast.CallExpr); ok && funcKey(c.Callee(call)) == "go/ast.Inspect" && len(call.Args) == 2 {
-			lit, _ = call.Args[1].(*ast.FuncLit)
+			if fl, ok := call.Args[1].(*ast.FuncLit); ok {
+				lit = fl
+			} else if se, ok := call.Args[1].(*ast.SelectorExpr); ok {
+				if fn, ok := c.Info.Uses[se.Sel].(*types.Func); ok && fn.Pkg() == pkg.Types {
+					for _, d := range load.AllFuncDecls(pkg) {
+						if c.Info.Defs[d.Name] == types.Object(fn) && d.Body != nil && d.Recv != nil && len(d.Recv.List[0].Names) == 1 {
+							lit = &ast.FuncLit{Type: d.Type, Body: d.Body}
+							rn, on := d.Recv.List[0].Names[0].Name, c.ExprStr(se.X)
+							re := regexp.MustCompile(`\b` + regexp.QuoteMeta(rn) + `\.`)
+							rename = func(s string) string { return re.ReplaceAllString(s, on+".") }
+						}
+					}
+				}
+			}
 		}
 		return true
 	})
 	if lit == nil {
+		returnsSpec("imports", "outer")
 		e.Run.Violation("R-RESOLVER", "goast.imports scans the file with ast.Inspect and a literal callback", e.Prog.Pos(fd.Pos()), "not found")
 		return
 	}
@@ -1240,25 +1304,46 @@ func (e *Env) goastImports() {
 		return
 	}
 	const P = `mustUnquote(node.Path.Value)`
-	const RP = `r.RestorerResolver.ResolvePackage(` + P + `)`
+	// the package-name resolver call, as written (r.RestorerResolver… or through an owner field)
+	RP := `r.RestorerResolver.ResolvePackage(` + P + `)`
+	for _, st := range body {
+		ast.Inspect(st, func(n ast.Node) bool {
+			if call, ok := n.(*ast.CallExpr); ok {
+				if fn := c.Callee(call); fn != nil && fn.Name() == "ResolvePackage" {
+					RP = c.ExprStr(call)
+				}
+			}
+			return true
+		})
+	}
 	implies := func(cond, not string) (bool, bool) { return unsatWith(cond, not) }
+	// the table: the one string-keyed map that is stored into; the refusal: the error lvalue
 	var store *asg
 	nStores := 0
+	table := "imports"
 	for i := range asgs {
-		if strings.HasPrefix(asgs[i].lhs, "imports[") {
+		if k := strings.Index(asgs[i].lhs, "[name]"); k > 0 && strings.HasSuffix(asgs[i].lhs, "[name]") {
 			nStores++
 			store = &asgs[i]
+			table = asgs[i].lhs[:k]
 		}
 	}
+	errL := "outer"
+	for _, a := range asgs {
+		if strings.HasPrefix(a.rhs, "fmt.Errorf(") && !strings.Contains(a.lhs, "[") {
+			errL = a.lhs
+		}
+	}
+	returnsSpec(rename(table), rename(errL))
 	if nStores != 1 {
 		e.Run.Violation("R-RESOLVER", "goast.imports: one store into the table per import spec", e.Prog.Pos(arm.Pos()), fmt.Sprintf("%d stores", nStores))
 		return
 	}
 	pos := e.Prog.Pos(store.pos)
-	e.Run.Check("R-RESOLVER", "goast.imports: the table maps the name to the unquoted import path", pos, store.lhs == "imports[name]" && store.rhs == P, store.lhs+" = "+store.rhs)
+	e.Run.Check("R-RESOLVER", "goast.imports: the table maps the name to the unquoted import path", pos, store.lhs == table+"[name]" && store.rhs == P, store.lhs+" = "+store.rhs)
 	for _, ob := range []struct{ what, not string }{
 		{"the cgo pseudo-import is never entered", P + ` == "C"`},
-		{"a name already in the table is never overwritten", `ok(imports[name])`},
+		{"a name already in the table is never overwritten", `ok(` + table + `[name])`},
 		{"nothing is entered after the package-name resolver failed", `res1(` + RP + `) != nil && name == ""`},
 		{"a dot-import is never entered", `name == "."`},
 		{"a blank import is never entered", `name == "_"`},
@@ -1273,11 +1358,11 @@ func (e *Env) goastImports() {
 	// refusals recorded in outer
 	dup, res := false, false
 	for _, a := range asgs {
-		if a.lhs != "outer" {
+		if a.lhs != errL {
 			continue
 		}
 		if strings.HasPrefix(a.rhs, "fmt.Errorf(") {
-			if okI, dec := implies(a.cond, `!ok(imports[name])`); dec && okI {
+			if okI, dec := implies(a.cond, `!ok(`+table+`[name])`); dec && okI {
 				dup = true
 			}
 		}
